@@ -6,9 +6,13 @@ import (
 	"encoding/json"
 	"fmt"
 	"os"
+	"os/exec"
+	"path/filepath"
 	"sort"
 	"strings"
 	"time"
+
+	"verif/selftest/corpus"
 
 	"verif/explore"
 	_ "verif/h/all"
@@ -22,6 +26,9 @@ func main() {
 	}
 	if len(os.Args) >= 3 && os.Args[1] == "--replay" {
 		os.Exit(replay(os.Args[2]))
+	}
+	if len(os.Args) >= 2 && os.Args[1] == "--engine-selftest" {
+		os.Exit(engineSelftest())
 	}
 	if len(os.Args) < 2 {
 		var ids []string
@@ -101,4 +108,79 @@ func replay(path string) int {
 		return 1
 	}
 	return 0
+}
+
+// engineSelftest: the conformance corpus (DESIGN 2.11). Every program is explored exhaustively under the
+// controlled scheduler (the bound exceeds the number of choice points) and its outcome set must equal the
+// expected set; then the natively compiled corpus is run 2000 times per program and every outcome seen
+// natively must be in the explored set.
+func engineSelftest() int {
+	bad := 0
+	explored := map[string]map[string]bool{}
+	for i, p := range corpus.Progs {
+		st := explore.Explore(explore.Config{Harness: "selftest.prog", Params: fmt.Sprint(i), Bound: 64, FreeSwitch: true, MaxSteps: 5000})
+		got := map[string]bool{}
+		for o := range st.Outcomes {
+			o = strings.TrimSpace(o)
+			if strings.HasPrefix(o, "PANIC ") {
+				if j := strings.Index(o, ": "); j >= 0 {
+					o = "PANIC " + o[j+2:]
+				}
+			}
+			if strings.HasPrefix(o, "DEADLOCK") {
+				o = "DEADLOCK"
+			}
+			got[o] = true
+		}
+		explored[p.Name] = got
+		want := map[string]bool{}
+		for _, w := range p.Want {
+			want[w] = true
+		}
+		ok := len(got) == len(want) && st.Complete
+		for w := range want {
+			if !got[w] {
+				ok = false
+			}
+		}
+		status := "ok"
+		if !ok {
+			status = "MISMATCH"
+			bad++
+		}
+		fmt.Printf("%-32s %-8s execs=%-6d explored=%v expected=%v\n", p.Name, status, st.Execs, keys(got), p.Want)
+	}
+	exe, _ := os.Executable()
+	out, err := exec.Command(filepath.Join(filepath.Dir(exe), "selftest-native")).Output()
+	if err != nil {
+		fmt.Println("ENGINE ERROR: native corpus run failed:", err)
+		return 2
+	}
+	var native map[string][]string
+	if err := json.Unmarshal(out, &native); err != nil {
+		fmt.Println("ENGINE ERROR: native corpus output:", err)
+		return 2
+	}
+	for name, outs := range native {
+		for _, o := range outs {
+			if !explored[name][o] {
+				fmt.Printf("%-32s NATIVE OUTCOME NOT EXPLORED: %q (explored %v)\n", name, o, keys(explored[name]))
+				bad++
+			}
+		}
+	}
+	fmt.Printf("engine self-test: %d programs, %d problems\n", len(corpus.Progs), bad)
+	if bad > 0 {
+		return 2
+	}
+	return 0
+}
+
+func keys(m map[string]bool) []string {
+	var k []string
+	for s := range m {
+		k = append(k, s)
+	}
+	sort.Strings(k)
+	return k
 }
